@@ -325,6 +325,16 @@ enum CellArrayKind {
     ArrayFormula(i32, i32),
 }
 
+/// Parses the `<v>` of a numeric cell. Anything that is not a finite number (including
+/// "inf" and "NaN", which `str::parse::<f64>` accepts) is read as 0.
+fn parse_cell_number(value: Option<&str>) -> f64 {
+    let v = value.unwrap_or("0").parse::<f64>().unwrap_or(0.0);
+    if v.is_nan() || v.is_infinite() {
+        return 0.0;
+    }
+    v
+}
+
 // FIXME
 #[allow(clippy::too_many_arguments)]
 fn get_cell_from_excel(
@@ -370,14 +380,14 @@ fn get_cell_from_excel(
                 if let Some(anchor) = anchor_cell {
                     Cell::SpillCell {
                         v: SpillValue::Number(
-                            cell_value.unwrap_or("0").parse::<f64>().unwrap_or(0.0),
+                            parse_cell_number(cell_value),
                         ),
                         s: cell_style,
                         a: anchor,
                     }
                 } else {
                     Cell::NumberCell {
-                        v: cell_value.unwrap_or("0").parse::<f64>().unwrap_or(0.0),
+                        v: parse_cell_number(cell_value),
                         s: cell_style,
                     }
                 }
@@ -485,7 +495,7 @@ fn get_cell_from_excel(
         match cell_type {
             "b" => make_cell(FormulaValue::Boolean(cell_value == Some("1"))),
             "n" => make_cell(FormulaValue::Number(
-                cell_value.unwrap_or("0").parse::<f64>().unwrap_or(0.0),
+                parse_cell_number(cell_value),
             )),
             "e" => {
                 // For compatibility reasons Excel does not put the value #SPILL! but adds it as a metadata
